@@ -109,6 +109,15 @@ static bool has_redundant_group(const Dump &d) {
   return false;
 }
 
+// reference models of a derived replica: the distances list restarts from what the new replica reports (XML export lists homogeneous
+// matrices first, and equality with the source was just judged on the dumps); memattr and cpukind models carry information a dump
+// cannot show (forced efficiencies, which initiators are disjoint by construction), so they are inherited unless `fresh`
+void derive_models(World &w, int si, int di, bool fresh) {
+  Replica &S = w.r[si], &D = w.r[di];
+  models_init(w, di);
+  if (!fresh) { if (S.mem_tracked && D.mem_tracked) D.memattrs = S.memattrs; if (S.kinds_tracked && D.kinds_tracked) D.kind_regs = S.kind_regs; }
+}
+
 bool ops_repl(World &w, const Op &o) {
   Run &r = *w.run; const std::string &k = o.kind;
   if (k == "dup") {
@@ -120,7 +129,7 @@ bool ops_repl(World &w, const Op &o) {
     r.ev("dup r%d -> r%d rc=%d", si, di, rc);
     if (rc < 0 || !nt) viol0(w, "C12", "dup.failed", "hwloc_topology_dup failed (errno %d)", errno);
     Replica &D = w.r[di]; D = Replica(); D.t = nt; D.flags = hwloc_topology_get_flags(nt); D.loaded_from = 3;
-    D.userdata = S.userdata; D.user_dists = S.user_dists; D.dists_tracked = S.dists_tracked; D.memattrs = S.memattrs; D.mem_tracked = S.mem_tracked; D.kind_regs = S.kind_regs; D.kind_initial_union = S.kind_initial_union; D.kinds_tracked = S.kinds_tracked;
+    D.userdata = S.userdata;
     if (S.twin >= 0 && w.r[S.twin].twin == si) w.r[S.twin].twin = -1;
     S.twin = di; D.twin = si; S.twin_kind = D.twin_kind = 1;
     Dump dd; take_dump(nt, dd, DUMP_FULL);
@@ -132,6 +141,7 @@ bool ops_repl(World &w, const Op &o) {
     // the source must not have been touched by dup itself
     Dump ds2; take_dump(S.t, ds2, DUMP_FULL); if (ds2.text() != a) viol0(w, "C12", "dup.modified_source", "hwloc_topology_dup changed what its source reports");
     S.last = ds2; S.last_text = a; D.last = dd; D.last_text = b;
+    derive_models(w, si, di, false);
     std::string e = wf_check(nt, dd); if (!e.empty()) viol(w, "C12", e.substr(0, e.find(": ")), "dup: %s", e.c_str());
     r.count("probe.dup"); if (S.adopted) r.count("probe.dup_of_adopted"); if (S.loaded_from == 2) r.count("probe.dup_of_xml_restart"); if (S.loaded_from == 3) r.count("probe.dup_of_dup");
     return true;
@@ -175,7 +185,7 @@ bool ops_repl(World &w, const Op &o) {
       std::string a = tree_sets_text(ds), b = tree_sets_text(dd);
       if (a != b && tree_sets_text(memccs_normalised(ds)) == tree_sets_text(memccs_normalised(dd))) viol0(w, "C05", "xml.v2_tree_differs.memory_child_complete_cpuset", "only the complete_cpuset of memory objects differs: the exported topology has a NUMA node/MemCache whose complete_cpuset is not its parent's, XML import always copies the parent's");
       if (a != b) { std::string la, lb; first_diff(a, b, la, lb); viol0(w, "C05", "xml.v2_tree_differs", "v2 export reloads to a different tree/sets: '%s' vs '%s'", la.c_str(), lb.c_str()); }
-      D.dists_tracked = D.mem_tracked = D.kinds_tracked = false;   // v2 format promises tree and sets only
+      derive_models(w, si, di, true);   // v2 format promises tree and sets only: the models restart from what the reload reports
       S.last = ds; S.last_text = ds.text();
       return true;
     }
@@ -206,12 +216,13 @@ bool ops_repl(World &w, const Op &o) {
     if (!import_support) { xa = strip_support(xa); xb = strip_support(xb); }   // by design the reloaded topology then advertises the XML loader's own support bits
     if (!ok2 || xa != xb) { std::string la, lb; first_diff(xa, xb, la, lb); viol0(w, "C05", "xml.reexport_differs", "re-export of the reloaded topology is not byte-identical: '%s' vs '%s'", la.substr(0, 600).c_str(), lb.substr(0, 600).c_str()); }
     // twins from now on
-    D.userdata = S.userdata; D.user_dists = S.user_dists; D.dists_tracked = S.dists_tracked; D.memattrs = S.memattrs; D.mem_tracked = S.mem_tracked; D.kind_regs = S.kind_regs; D.kind_initial_union = S.kind_initial_union; D.kinds_tracked = S.kinds_tracked;
+    D.userdata = S.userdata;
     if (S.twin >= 0 && w.r[S.twin].twin == si) w.r[S.twin].twin = -1;
     bool same_filters = true; for (int i = 0; i < HWLOC_OBJ_TYPE_MAX; i++) if (ds.filters[i] != dd.filters[i]) same_filters = false;
     if (same_filters) { S.twin = di; D.twin = si; S.twin_kind = D.twin_kind = 2; r.count("probe.xml_twin_lockstep_possible"); }
     Dump ds2; take_dump(S.t, ds2, DUMP_FULL); S.last = ds2; S.last_text = ds2.text();
     take_dump(nt, D.last, DUMP_FULL); D.last_text = D.last.text();
+    derive_models(w, si, di, false);
     return true;
   }
   return false;
